@@ -112,7 +112,7 @@ Fixpoint assoc {A} (l: list (string * A)) (k: string) : option A :=
 Fixpoint copy_ident (t: ty) : bool :=
   match t with
   | TInt | TStr => true
-  | TUnion ts => (fix all (l: list ty) : bool := match l with [] => true | x :: r => copy_ident x && all r end) ts
+  | TUnion ts => forallb copy_ident ts
   | _ => false
   end.
 
@@ -157,12 +157,68 @@ Section Dispatch.
     find (fun c' => String.eqb c' ann || has_method c') (chain (S (List.length E)) rc).
 End Dispatch.
 
+(* union packer skeleton (pack_union): members whose packer is the bare `value` were handled by
+   the class check; every other member is tried in declaration order *)
+Section Tries.
+  Context (m: mode) (f: ty -> res val).
+  Fixpoint tries (l: list ty) : res val :=
+    match l with
+    | [] => Err (union_err m)
+    | t' :: r => if copy_ident t' then tries r
+                 else match f t' with Ok y => Ok y | Err _ => tries r end
+    end.
+End Tries.
+
+(* iterating a str yields its 1-character strings (ASCII alphabet of the generators) *)
+Fixpoint chars (s: string) : list string :=
+  match s with EmptyString => [] | String c r => String c EmptyString :: chars r end.
+
 (* ------------------------------------------------------------------ *)
 (* to_dict / encode                                                     *)
 Section Pack.
   Variable E: env.
   Variable m: mode.
   Variable dl: option bool.
+
+  (* a packer applied to a str value (reached only when a packer meets a value of another
+     shape: look-alike classes).  Structural on the type: iterating/indexing a str gives strs. *)
+  Fixpoint pack_s (t: ty) {struct t} : string -> res val :=
+    fun s =>
+    match t with
+    | TInt | TStr => Ok (VStr s)
+    | TDate => Err XRaw
+    | TList t' => if copy_ident t' then Err XRaw
+                  else fmap VList (mapM (pack_s t') (chars s))
+    | TDict _ => Err XRaw
+    | TTuple ts =>
+        match ts with
+        | [] => Ok (VList [])
+        | _ => fmap VList
+                 ((fix go (ts: list ty) (cs: list string) : res (list val) :=
+                     match ts with
+                     | [] => Ok []
+                     | t' :: tr =>
+                         match cs with
+                         | [] => Err XRaw
+                         | c :: cr => match pack_s t' c with
+                                      | Ok y => match go tr cr with Ok ys => Ok (y :: ys) | Err e => Err e end
+                                      | Err e => Err e end
+                         end
+                     end) ts (chars s))
+        end
+    | TOpt t' => pack_s t' s
+    | TUnion ts =>
+        if forallb copy_ident ts then Ok (VStr s)
+        else if existsb (fun t' => id_class_match t' (VStr s)) ts then Ok (VStr s)
+        else tries m (fun t' => pack_s t' s) ts
+    | TData c =>
+        match m with
+        | Mixin => Err XRaw
+        | Codec => match find_cls E c with
+                   | Some d => match c_fields d with [] => Ok (VDict []) | _ => Err XRaw end
+                   | None => Err XRaw end
+        end
+    end.
 
   (* body of the generated __mashumaro_to_dict__ of class [d] over attribute closures *)
   Definition pack_fields_cl (d: cdef) (cl: list (string * (ty -> res val))) : res val :=
@@ -191,7 +247,8 @@ Section Pack.
           else
             match v with
             | VList l | VTuple l => fmap VList (mapM (fun x => pack x t') l)
-            | VStr _ | VDict _ => Err XUnmodelled
+            | VStr s => pack_s t s
+            | VDict kvs => fmap VList (mapM (pack_s t') (map fst kvs))     (* iterates the keys *)
             | _ => Err XRaw
             end
       | TDict t' =>
@@ -213,25 +270,15 @@ Section Pack.
           | _ =>
               match v with
               | VList l | VTuple l => fmap VList (tuple_cl (map pack l) ts)
-              | VStr _ => Err XUnmodelled
+              | VStr s => pack_s t s
               | _ => Err XRaw
               end
           end
       | TOpt t' => match v with VNone => Ok VNone | _ => on_ty t' end
       | TUnion ts =>
-          if copy_ident t then Ok v
+          if forallb copy_ident ts then Ok v
           else if existsb (fun t' => id_class_match t' v) ts then Ok v
-          else (fix tries (l: list ty) : res val :=
-                  match l with
-                  | [] => Err (union_err m)
-                  | t' :: r =>
-                      if copy_ident t' then tries r
-                      else match on_ty t' with
-                           | Ok y => Ok y
-                           | Err XUnmodelled => Err XUnmodelled
-                           | Err _ => tries r
-                           end
-                  end) ts
+          else tries m on_ty ts
       | TData c =>
           match v with
           | VObj rc fs =>
@@ -284,8 +331,7 @@ Section Exact.
                     | _ => false end
       | TTuple ts => match v with VTuple l => exact_zip (map exact l) ts | _ => false end
       | TOpt t' => match v with VNone => true | _ => on_ty t' end
-      | TUnion ts => (fix any (l: list ty) : bool :=
-                        match l with [] => false | t' :: r => on_ty t' || any r end) ts
+      | TUnion ts => existsb on_ty ts
       | TData c =>
           match v with
           | VObj rc fs =>
@@ -320,7 +366,7 @@ Definition simple_member (t: ty) : bool :=
 Definition union_ok (E: env) (ts: list ty) : bool :=
   forallb simple_member ts &&
   forallb (fun a => match find_cls E a with
-                    | Some da => negb (match c_fields da with [] => true | _ => false end)
+                    | Some da => negb (match c_fields da with [] => true | _ => false end) && c_has_method da
                     | None => false end &&
                     forallb (fun b => String.eqb a b || distinguishes E a b) (data_members ts))
           (data_members ts).
@@ -329,7 +375,7 @@ Fixpoint no_lookalike_ty (E: env) (t: ty) : bool :=
   match t with
   | TInt | TStr | TDate | TData _ => true
   | TList t' | TDict t' | TOpt t' => no_lookalike_ty E t'
-  | TTuple ts => (fix all (l: list ty) : bool := match l with [] => true | x :: r => no_lookalike_ty E x && all r end) ts
+  | TTuple ts => forallb (no_lookalike_ty E) ts
   | TUnion ts => union_ok E ts
   end.
 
@@ -346,9 +392,10 @@ Definition dialect_compat (E: env) (dl: option bool) : bool :=
   | Some b => forallb (fun d => match c_by_alias d with None => true | Some b' => Bool.eqb b b' end) E
   end.
 
-(* find_cls returns the definition registered under its own name (no duplicate names needed) *)
-Definition names_ok (E: env) : bool :=
-  forallb (fun d => match find_cls E (c_name d) with Some d' => true | None => false end) E.
+(* no class declares two fields of the same name *)
+Fixpoint nodupb (l: list string) : bool :=
+  match l with [] => true | x :: r => negb (str_in x r) && nodupb r end.
+Definition names_ok (E: env) : bool := forallb (fun d => nodupb (field_names d)) E.
 
 (* ------------------------------------------------------------------ *)
 (* from_dict / decode                                                   *)
@@ -415,6 +462,31 @@ Definition coerce_str (v: val) : res val :=
   | _ => Err XUnmodelled
   end.
 
+(* union unpacker skeleton (UnionUnpackerBuilder._add_body):
+   phase 1, declaration order: exact-type return for int/str members, try for the others;
+   phase 2: the scalar coercions of the int/str members as fallbacks, declaration order *)
+Section Phases.
+  Context (m: mode) (v: val) (f: ty -> res val).
+  Fixpoint phase2 (l2: list ty) : res val :=
+    match l2 with
+    | [] => Err (union_err m)
+    | TInt :: r => match coerce_int v with Ok y => Ok y | Err XUnmodelled => Err XUnmodelled | Err _ => phase2 r end
+    | TStr :: r => match coerce_str v with Ok y => Ok y | Err XUnmodelled => Err XUnmodelled | Err _ => phase2 r end
+    | _ :: r => phase2 r
+    end.
+  Fixpoint phase1 (all l: list ty) : res val :=
+    match l with
+    | [] => phase2 all
+    | TInt :: r => match v with VInt _ => Ok v | _ => phase1 all r end
+    | TStr :: r => match v with VStr _ => Ok v | _ => phase1 all r end
+    | t' :: r => match f t' with
+                 | Ok y => Ok y
+                 | Err XUnmodelled => Err XUnmodelled
+                 | Err _ => phase1 all r
+                 end
+    end.
+End Phases.
+
 Section Unpack.
   Variable E: env.
   Variable m: mode.
@@ -467,27 +539,7 @@ Section Unpack.
               end
           end
       | TOpt t' => match v with VNone => Ok VNone | _ => on_ty t' end
-      | TUnion ts =>
-          (* phase 1, declaration order: exact-type return for int/str members, try for the others;
-             phase 2: the scalar coercions of the int/str members as fallbacks, declaration order *)
-          (fix phase1 (l: list ty) : res val :=
-             match l with
-             | [] =>
-                 (fix phase2 (l2: list ty) : res val :=
-                    match l2 with
-                    | [] => Err (union_err m)
-                    | TInt :: r => match coerce_int v with Ok y => Ok y | Err XUnmodelled => Err XUnmodelled | Err _ => phase2 r end
-                    | TStr :: r => match coerce_str v with Ok y => Ok y | Err XUnmodelled => Err XUnmodelled | Err _ => phase2 r end
-                    | _ :: r => phase2 r
-                    end) ts
-             | TInt :: r => match v with VInt _ => Ok v | _ => phase1 r end
-             | TStr :: r => match v with VStr _ => Ok v | _ => phase1 r end
-             | t' :: r => match on_ty t' with
-                          | Ok y => Ok y
-                          | Err XUnmodelled => Err XUnmodelled
-                          | Err _ => phase1 r
-                          end
-             end) ts
+      | TUnion ts => phase1 m v on_ty ts ts
       | TData c =>
           match find_cls E c with
           | None => Err XRaw
